@@ -229,3 +229,129 @@ fn c02_seg_empty() {
     forget(res);
     forget(tokens);
 }
+
+// ---------------------------------------------------------------------------
+// C12: the streaming header stripper and the slice header stripper agree for every
+// input and every chunking of the stream.
+struct ChunkReader<'a> {
+    data: &'a [u8],
+    pos: usize,
+    reads: u32,
+    short_reads: u32,
+}
+
+impl<'a> Read for ChunkReader<'a> {
+    fn read(&mut self, buf: &mut [u8]) -> io::Result<usize> {
+        let rem = self.data.len() - self.pos;
+        if rem == 0 || buf.is_empty() {
+            return Ok(0);
+        }
+        // the chunking is the solver's choice: any 1..=min(rem, buf.len()) bytes
+        let k: usize = kani::any();
+        kani::assume(k >= 1 && k <= rem && k <= buf.len());
+        let mut i = 0;
+        while i < k {
+            buf[i] = self.data[self.pos + i];
+            i += 1;
+        }
+        self.pos += k;
+        self.reads += 1;
+        if k < rem && k < buf.len() {
+            self.short_reads += 1;
+        }
+        Ok(k)
+    }
+}
+
+fn c12_hdr_body<const N: usize, const B: usize>() {
+    let data: [u8; N] = kani::any();
+    // slice path
+    let sres = strip_junk_header(&data);
+    let (s_ok, s_start) = match &sres {
+        Ok(rest) => (true, N - rest.len()),
+        Err(_) => (false, 0),
+    };
+    forget(sres);
+    // reader path
+    let mut rdr = StripHeaderReader::new(ChunkReader { data: &data, pos: 0, reads: 0, short_reads: 0 });
+    let mut out = [0u8; N];
+    let mut n_out = 0usize;
+    let mut r_ok = true;
+    let mut calls = 0;
+    let mut finished = false;
+    while calls < N + 2 {
+        // caller buffer of B bytes (concrete per harness instance); how many bytes each
+        // inner read delivers (1..=B) is the solver's choice
+        let want: usize = B;
+        let mut buf = [0u8; B];
+        let r = rdr.read(&mut buf[..]);
+        match r {
+            Ok(0) => {
+                finished = true;
+                break;
+            }
+            Ok(k) => {
+                assert!(k <= want, "C12/read-returns-at-most-buffer-size");
+                let mut i = 0;
+                while i < k {
+                    assert!(n_out < N, "C12/reader-never-produces-more-than-input");
+                    out[n_out] = buf[i];
+                    n_out += 1;
+                    i += 1;
+                }
+            }
+            Err(e) => {
+                forget(e);
+                r_ok = false;
+                finished = true;
+                break;
+            }
+        }
+        calls += 1;
+    }
+    assert!(finished, "verif: harness bound on the number of reads too small");
+    assert!(r_ok == s_ok, "C12/reader-and-slice-fail-together");
+    if r_ok && s_ok {
+        // the slice path keeps the '\n' that ends the header (the JSON parser skips it)
+        let had_header = s_start > 0 || (N > 0 && is_junk_json(data[0]));
+        let mut exp_start = s_start;
+        if had_header && exp_start < N && data[exp_start] == b'\n' {
+            exp_start += 1;
+        }
+        assert!(n_out == N - exp_start, "C12/reader-output-length-matches-slice");
+        let mut i = 0;
+        while i < n_out {
+            assert!(out[i] == data[exp_start + i], "C12/reader-output-bytes-match-slice");
+            i += 1;
+        }
+    }
+    let short = rdr.r.short_reads;
+    let reads = rdr.r.reads;
+    if N >= 3 {
+        kani::cover!(s_ok && is_junk_json(data[0]) && data[1] == b'\n' && n_out == N - 2, "header ends with LF, payload follows");
+        kani::cover!(!s_ok, "bare CR rejected");
+        kani::cover!(s_ok && !is_junk_json(data[0]) && n_out == N, "no header");
+        kani::cover!(short >= 1, "inner reader returned a short read");
+        kani::cover!(reads >= 3, "three inner reads");
+        kani::cover!(s_ok && is_junk_json(data[0]) && data[1] == b'\r' && data[2] == b'\n', "CRLF header");
+    }
+    forget(rdr);
+}
+
+macro_rules! c12_hdr {
+    ($name:ident, $n:literal, $b:literal, $u:literal) => {
+        #[kani::proof]
+        #[kani::unwind($u)]
+        fn $name() {
+            c12_hdr_body::<$n, $b>()
+        }
+    };
+}
+c12_hdr!(c12_hdr_n0_b2, 0, 2, 4);
+c12_hdr!(c12_hdr_n1_b2, 1, 2, 4);
+c12_hdr!(c12_hdr_n2_b2, 2, 2, 5);
+c12_hdr!(c12_hdr_n3_b2, 3, 2, 6);
+c12_hdr!(c12_hdr_n3_b3, 3, 3, 6);
+c12_hdr!(c12_hdr_n4_b2, 4, 2, 7);
+c12_hdr!(c12_hdr_n4_b3, 4, 3, 7);
+c12_hdr!(c12_hdr_n5_b3, 5, 3, 8);
